@@ -712,3 +712,8 @@ K('C08', 'mle-on-arrays-without-the-floor', [(GM, "            potentials[cl] = 
                                               "            mu = marginals[cl]\n            sep = mu.project(new).expand(mu.domain)\n            potentials[cl] = type(mu)(mu.domain, np.log(mu.values) - np.log(sep.values))")], 'mle-form')
 T('C08', 'mle-on-arrays-with-the-floor', [(GM, "            potentials[cl] = marginals[cl].log() - marginals[cl].project(new).log()",
                                            "            mu = marginals[cl]\n            sep = mu.project(new).expand(mu.domain)\n            potentials[cl] = type(mu)(mu.domain, np.log(mu.values + 1e-100) - np.log(sep.values + 1e-100))")])
+
+# ------------------------------------------------------------------ every property: two more whole-tree rewrites
+for _how, _id in (('AUGSPLIT', 'scalar-updates-spelled-out-tree'), ('ENUMIDX', 'loops-through-enumerate-tree')):
+    for _p in ['C11', 'C12', 'C01', 'C02', 'C04', 'C05', 'C06', 'C07', 'C08', 'C09', 'C10', 'C13', 'C14', 'C15', 'C16', 'C18', 'C19', 'C20']:
+        MUTANTS.append({'prop': _p, 'id': _id, 'kind': 'T', 'edits': _how})
